@@ -252,7 +252,7 @@ def rule_S4(ctx):
     if update is None:
         res.holds(("order",), "no visibility update in inspect_ctx")
         return res
-    if (check.lineno, check.col_offset) < (update.lineno, update.col_offset):
+    if check._ord < update._ord:
         res.holds(("order",), "references are checked before the entry's own names are added")
     else:
         res.violated(("order",), _f(
@@ -311,4 +311,141 @@ def rule_S5(ctx):
                 "this reader normalises the transition's 'do' differently from its siblings "
                 "(%s vs %s): inspection and the engine disagree about which task a transition "
                 "names" % (list(fm), list(ref))))
+    return res
+
+
+# ====================================================================== S6
+BASE_DISPATCH = ("validate", "evaluate", "extract_vars", "has_expressions")
+
+
+def rule_S6(ctx):
+    """expressions.base dispatches on the evaluators' own notion of 'has an expression': its
+    module-level validate / evaluate / extract_vars / has_expressions look at a string only
+    through isinstance, emptiness, or by handing it to a method of a registered evaluator (or
+    to themselves).  A test that inspects the text itself (substring, prefix, regex) in the
+    dispatcher decides what an expression is without asking the grammars - strings the
+    evaluators would have validated (and reported) are then skipped."""
+    res = RuleResult("S6", "the language-neutral dispatch in expressions.base never filters a "
+                           "string by its text: only isinstance / emptiness tests and evaluator "
+                           "methods decide which strings are validated, evaluated or scanned")
+    prog = ctx.prog
+    mod = prog.module("expressions.base")
+    found = 0
+    for name in BASE_DISPATCH:
+        f = mod.functions.get(name)
+        if f is None:
+            continue
+        found += 1
+        if not f.params:
+            continue
+        p = f.params[0]
+        modules = set(k for k, v in f.module.imports.items())
+        for n in ast.walk(f.node):
+            tests = []
+            if isinstance(n, (ast.If, ast.IfExp, ast.While)):
+                tests.append(n.test)
+            elif isinstance(n, ast.comprehension):
+                tests.extend(n.ifs)
+            for t in tests:
+                inst = (f.qualname, norm_src(t))
+                why = None
+                for x in ast.walk(t):
+                    if isinstance(x, ast.Compare):
+                        ops = [x.left] + list(x.comparators)
+                        if any(isinstance(o, ast.Name) and o.id == p for o in ops):
+                            why = "compares the text itself (%s)" % unparse(x)
+                    elif isinstance(x, ast.Call):
+                        fn = x.func
+                        uses = any(isinstance(a, ast.Name) and a.id == p for a in
+                                   list(x.args) + [k.value for k in x.keywords])
+                        if isinstance(fn, ast.Attribute) and isinstance(fn.value, ast.Name):
+                            if fn.value.id == p:
+                                why = "calls %s.%s()" % (p, fn.attr)
+                            elif uses and fn.value.id in modules:
+                                why = "hands the text to %s" % unparse(fn)
+                        elif isinstance(fn, ast.Name) and uses and fn.id not in (
+                                "isinstance", "len", "bool", "type") + BASE_DISPATCH:
+                            why = "hands the text to %s()" % fn.id
+                    elif isinstance(x, ast.Subscript) and isinstance(x.value, ast.Name) and \
+                            x.value.id == p:
+                        why = "indexes the text (%s)" % unparse(x)
+                if why is None:
+                    res.holds(inst)
+                else:
+                    res.violated(inst, Finding(
+                        "S6", f.file, f.qualname, "text test " + norm_src(t),
+                        "%s() %s before / instead of asking the registered evaluators: a string "
+                        "an evaluator recognises as an expression can be skipped, so its "
+                        "grammar errors are not reported (or it is not evaluated)" % (name, why),
+                        line=t.lineno))
+    if found < 3:
+        raise AnalysisError("expressions.base dispatch functions vanished")
+    return res
+
+
+# ====================================================================== S7
+# recognisers whose matches are matches of another recogniser of the same class
+SUBSUMED_RECOGNISERS = {
+    "_regex_raw_block_parser": "a raw block {% raw %}..{% endraw %} is matched by the block "
+                               "recogniser {%..%} as well",
+}
+
+
+def _recognisers_on_param(f, param):
+    """cls._regex_* attributes whose findall/search/match/finditer is applied to `param`."""
+    out = {}
+    for n in ast.walk(f.node):
+        if isinstance(n, ast.Call) and isinstance(n.func, ast.Attribute) and n.func.attr in (
+                "findall", "search", "match", "finditer", "fullmatch") and n.args and isinstance(
+                n.args[0], ast.Name) and n.args[0].id == param and isinstance(
+                n.func.value, ast.Attribute) and n.func.value.attr.startswith("_regex"):
+            out[n.func.value.attr] = n
+    return out
+
+
+def rule_S7(ctx):
+    """Sibling agreement inside each evaluator: every recogniser that evaluate() / validate()
+    apply to the text they are given is also consulted by has_expressions().  The dispatcher in
+    expressions.base reaches an evaluator only through has_expressions, so a fragment kind that
+    has_expressions does not recognise is never validated (its grammar errors go unreported)
+    and never evaluated."""
+    res = RuleResult("S7", "has_expressions() of every evaluator consults each recogniser that "
+                           "its validate() / evaluate() apply to the text")
+    prog = ctx.prog
+    base = prog.cls("expressions.base.Evaluator")
+    subs = [c for c in prog.subclasses(base) if c is not base]
+    if len(subs) < 2:
+        raise AnalysisError("fewer than two Evaluator subclasses found")
+    for c in subs:
+        he = prog.lookup_method(c, "has_expressions")
+        if he is None or he.cls is not c:
+            raise AnalysisError("%s has no has_expressions of its own" % c.qualname)
+        hp = [p for p in he.params if p not in ("cls", "self")]
+        H = set(_recognisers_on_param(he, hp[0])) if hp else set()
+        # follow single-return delegation to another classmethod of the class
+        for call in calls_in(he.node):
+            m = prog.lookup_method(c, callee_name(call) or "")
+            if m is not None and m.cls is c and m is not he:
+                mp = [p for p in m.params if p not in ("cls", "self")]
+                if mp:
+                    H |= set(_recognisers_on_param(m, mp[0]))
+        for name, m in sorted(c.methods.items()):
+            if m is he or not any(k in name for k in ("evaluate", "validate")):
+                continue
+            mp = [p for p in m.params if p not in ("cls", "self")]
+            if not mp:
+                continue
+            for attr, node in sorted(_recognisers_on_param(m, mp[0]).items()):
+                inst = (c.qualname, name, attr)
+                if attr in H:
+                    res.holds(inst)
+                elif attr in SUBSUMED_RECOGNISERS:
+                    res.holds(inst, "subsumed: " + SUBSUMED_RECOGNISERS[attr])
+                else:
+                    res.violated(inst, Finding(
+                        "S7", m.file, m.qualname, "recogniser %s" % attr,
+                        "%s applies %s to its text, but has_expressions() of the class does not "
+                        "consult it (it consults %s): strings that contain only that kind of "
+                        "fragment are never dispatched to this evaluator, so their grammar "
+                        "errors are not reported" % (name, attr, sorted(H)), line=node.lineno))
     return res
